@@ -680,6 +680,7 @@ pub fn random_history(rng: &mut Rng) -> History {
     let target = *rng.pick(&[Target::SliceOut, Target::SliceOut, Target::VecOut, Target::VecOut, Target::SliceIn]);
     // swarm: per-history size regime and op mix
     let max_k = *rng.pick(&[1usize, 3, 8, 17, 64, 300, 4096, 4096, 70_000]);
+    let max_k = if cfg!(miri) { max_k.min(4096) } else { max_k };
     let len_top = *rng.pick(&[4usize, 12, 40, 200]);
     let len = 1 + rng.usize_below(len_top);
     let cap = match rng.below(5) {
